@@ -10,10 +10,11 @@ RULE = ('class-stratified random contents x random option vectors, all 256 one-b
         'segno.make/make_qr/make_micro is decoded by the reference decoder inside an icontract post-condition on '
         'encoder.encode; distinct = distinct (version, level, mask, segment modes) tuples of decoded symbols')
 ASSUMPTIONS = common.ASSUME_QR
-REQUIRED = ['evaluations', 'encode_observed', 'symbols_decoded', 'mode:qr:numeric', 'mode:qr:alphanumeric',
+REQUIRED = ['cases_under_python_O', 'evaluations', 'encode_observed', 'symbols_decoded', 'mode:qr:numeric', 'mode:qr:alphanumeric',
             'mode:qr:byte', 'mode:qr:kanji', 'mode:qr:hanzi', 'mode:micro:numeric', 'mode:micro:byte',
             'mode:micro:kanji', 'mode:micro:alphanumeric', 'mode:qr:multi']
 TIMEOUT = {'quick': 3600, 'thorough': 21600}
+OPT_SLICE = {'quick': 120, 'thorough': 1500}     # cases re-run by one more worker under python -O (core.run_sharded)
 
 
 def core_cases():
@@ -75,6 +76,7 @@ def gen_cases(tier, seed):
                             kw2['micro'] = isinstance(v, str)
                             cases.append(common.mk(gen.content_for_bits(m, k), tag='per-version-auto',
                                                    fn='make', **kw2))
+    cases += common.big_int_cases(rng, tier)
     cases += common.eci_boundary_cases(rng, tier)
     if tier == 'thorough':
         # all 65,536 two-byte strings with defaults
